@@ -870,7 +870,11 @@ impl ProcessEvent<RoutingEvent> for RoutingThread {
                 ))
                 .await;
 
-                self.blockchain_sync_state.mark_as_fetched(block_hash);
+                // the buffer has not been looked at yet: this peer has answered, but whether the block has
+                // arrived is for the verification to say. what other peers announced stays queued until the
+                // chain reports the block
+                self.blockchain_sync_state
+                    .remove_entry_of_peer(block_hash, peer_index);
 
                 self.fetch_next_blocks().await;
 
